@@ -77,12 +77,50 @@ def edit_scripts(max_size=4):
     return st.lists(edit, max_size=max_size)
 
 
+def refused_calls(db) -> bool:
+    """Calls the library refuses (each raises on the unchanged tree); a refused call must leave no trace, so the
+    renderings judged afterwards still have to state the model.  Returns False when the content of the database
+    changed (a call was not refused after all: the container's business, property C09), the caller then skips the phase."""
+    from pydbml.classes import Column, Enum, EnumItem, Index, Reference, Table, TableGroup
+    from ..extract import extract
+    before = extract(db)
+    calls = []
+    for a in db.tables:
+        ix = next((i for i in a.indexes if any(isinstance(x, Column) for x in i.subjects)), None)
+        for b in db.tables:
+            if ix is not None and b is not a:
+                calls.append(lambda b=b, ix=ix: b.add_index(ix))
+    for t in db.tables[:2]:
+        twin = Table(t.name, schema=t.schema)
+        twin.add_column(Column('id', 'int'))
+        calls += [lambda t=t: db.add(t), lambda twin=twin: db.add(twin), lambda t=t: t.delete_column(Column('pbt_nosuch', 'int')),
+                  lambda t=t: t.delete_index(Index(['pbt_nosuch'])), lambda t=t: t.add_index('pbt_nosuch'), lambda t=t: t.add_column('pbt_nosuch')]
+    for e in db.enums[:2]:
+        calls.append(lambda e=e: db.add(Enum(e.name, [EnumItem('pbt')], schema=e.schema)))
+    for g in db.table_groups[:2]:
+        calls.append(lambda g=g: db.add(TableGroup(g.name, [])))
+    x, y = Table('pbt_x'), Table('pbt_y')
+    x.add_column(Column('id', 'int'))
+    y.add_column(Column('id', 'int'))
+    calls += [lambda: db.add(object()), lambda: db.delete(x), lambda: db.add(Reference('>', x.columns[0], y.columns[0]))]
+    for r in db.refs[:2]:
+        calls.append(lambda r=r: db.add(r))
+    for c in calls:
+        try:
+            c()
+        except Exception:  # noqa
+            pass
+    return extract(db) == before
+
+
 def edited(s, db, script):
     """Apply an edit script to (a normalised copy of) the schema and to the live database.
     Returns the edited schema, or None if nothing was applied."""
     from . import c10
     s2 = c10.normalize(s)
     applied = 0
+    if not refused_calls(db):
+        return None
     for k, e in enumerate(script):
         if c10.apply_edit(s2, db, tuple(e), k):
             applied += 1
